@@ -769,6 +769,59 @@ def batch_checks(ctx):
                 break
 
 
+def value_checks(ctx):
+    """the primitives are functions of the held coordinates: whatever was called before on the same object, and
+    whatever the caller did to arrays a previous call returned (they are the caller's), every call returns, bit
+    for bit, what it returns on a fresh object holding the same coordinates; no call changes the coordinates"""
+    rng = ctx.rng
+    AC, AD = impl.AngularCoordinates, impl.AngularDistances
+    for rnd in range(ctx.n(12, 80)):
+        N = rng.choice([1, 2, 3, 4, 6])
+        pts = np.array([sphere_point(rng) for _ in range(N)], dtype="f8")
+        oth = np.array([sphere_point(rng) for _ in range(N)], dtype="f8")
+        obj, other = AC(pts.copy()), AC(oth.copy())
+        dobj = None
+        steps = [rng.choice(["to_3d", "to_3d", "distance", "mean", "chord", "angle", "scribble", "scribble"]) for _ in range(rng.randrange(3, 9))]
+        held, trace = [], []
+        bad = None
+        for st in steps:
+            trace.append(st)
+            if st == "scribble":
+                # the caller reuses the arrays it was given (e.g. scales unit vectors to comoving positions)
+                for arr in held:
+                    if isinstance(arr, np.ndarray) and arr.flags.writeable and arr.size:
+                        arr *= 3.0
+                        arr += 1.0
+                continue
+            if st == "to_3d":
+                got, want = obj.to_3d(), AC(pts.copy()).to_3d()
+            elif st == "distance":
+                got, want = obj.distance(other).data, AC(pts.copy()).distance(AC(oth.copy())).data
+            elif st == "mean":
+                got, want = obj.mean().data, AC(pts.copy()).mean().data
+            elif st == "chord":
+                dobj = dobj or obj.distance(other)
+                fresh = AC(pts.copy()).distance(AC(oth.copy()))
+                got, want = dobj.to_3d(), fresh.to_3d()
+            else:
+                ch = AC(pts.copy()).distance(AC(oth.copy())).to_3d()
+                got, want = AD.from_3d(ch.copy()).data, AD.from_3d(ch.copy()).data
+            got = np.asarray(got)
+            held.append(got)
+            if got.shape != np.asarray(want).shape or got.tobytes() != np.asarray(want).tobytes():
+                bad = "%s after %s" % (st, trace[:-1])
+                break
+            if obj.data.tobytes() != pts.tobytes() or other.data.tobytes() != oth.tobytes():
+                bad = "%s changed the held coordinates" % st
+                break
+        ctx.count(key=("value", N, pts.tobytes(), tuple(steps)), nontrivial=len(set(steps)) > 1, kind="value/history")
+        if bad:
+            ctx.fail("c14-history-dependent:%s" % trace[-1],
+                     "%s on an object differs from the same call on a fresh object with the same coordinates (%s)" % (trace[-1], bad),
+                     dict(points=[[hexf(x) for x in p] for p in pts.tolist()], other=[[hexf(x) for x in p] for p in oth.tolist()], steps=trace),
+                     case=("value", rnd))
+
+
 def interval_axioms(ctx):
     """record verbatim what Interval adds to the trusted base (Print Assumptions of a lemma proved by `interval`)"""
     path = os.path.join(ctx.workdir, "Axioms_C14.v")
@@ -798,6 +851,7 @@ def run(ctx):
     judge(ctx, samples, verdict)
     q_checks(ctx)
     batch_checks(ctx)
+    value_checks(ctx)
     ctx.log("undecided goals: %d" % ctx.extra.get("undecided", 0))
 
 
